@@ -93,3 +93,38 @@ package bondmachine
 //@ func (vm *VM) DumpIO() string
 //@   trusted
 //@   pure
+
+//@ props C15
+// rule k of s is an active (not suspended) configuration rule naming option name
+//@ pred activeCfg(s *simbox.Simbox, k int, name string) := 0 <= k && k < len(s.Rules) && !s.Rules[k].Suspended &&
+//@        s.Rules[k].Timec == 1 && s.Rules[k].Action == 3 && s.Rules[k].Object == name
+
+// A suspended rule has no effect: each option is set afterwards iff it was set before or some active rule names it.
+//@ func (sc *SimConfig) Init(s *simbox.Simbox, vm *VM, conf *Config) error
+//@   requires sc != nil && (s != nil ==> conf != nil)
+//@   ensures ticks_set: s != nil ==> forall k int :: activeCfg(s, k, "show_ticks") ==> sc.ShowTicks
+//@   ensures ticks_only: sc.ShowTicks ==> old(sc.ShowTicks) || (s != nil && exists k int :: activeCfg(s, k, "show_ticks"))
+//@   ensures iopre_set: s != nil ==> forall k int :: activeCfg(s, k, "show_io_pre") ==> sc.ShowIoPre
+//@   ensures iopre_only: sc.ShowIoPre ==> old(sc.ShowIoPre) || (s != nil && exists k int :: activeCfg(s, k, "show_io_pre"))
+//@   ensures iopost_set: s != nil ==> forall k int :: activeCfg(s, k, "show_io_post") ==> sc.ShowIoPost
+//@   ensures iopost_only: sc.ShowIoPost ==> old(sc.ShowIoPost) || (s != nil && exists k int :: activeCfg(s, k, "show_io_post"))
+//@   ensures getticks_set: s != nil ==> forall k int :: activeCfg(s, k, "get_ticks") ==> sc.GetTicks
+//@   ensures getticks_only: sc.GetTicks ==> old(sc.GetTicks) || (s != nil && exists k int :: activeCfg(s, k, "get_ticks"))
+//@   ensures getall_set: s != nil ==> forall k int :: activeCfg(s, k, "get_all") ==> sc.GetAll
+//@   ensures getall_only: sc.GetAll ==> old(sc.GetAll) || (s != nil && exists k int :: activeCfg(s, k, "get_all"))
+//@   ensures getallint_set: s != nil ==> forall k int :: activeCfg(s, k, "get_all_internal") ==> sc.GetAllInternal
+//@   ensures getallint_only: sc.GetAllInternal ==> old(sc.GetAllInternal) || (s != nil && exists k int :: activeCfg(s, k, "get_all_internal"))
+//@   assigns sc.ShowTicks, sc.ShowIoPre, sc.ShowIoPost, sc.GetTicks, sc.GetAll, sc.GetAllInternal
+//@   loop 1: modifies sc.ShowTicks, sc.ShowIoPre, sc.ShowIoPost, sc.GetTicks, sc.GetAll, sc.GetAllInternal
+//@   loop 1: invariant a1: forall k int :: k < $i && activeCfg(s, k, "show_ticks") ==> sc.ShowTicks
+//@   loop 1: invariant a0: sc.ShowTicks ==> old(sc.ShowTicks) || (exists k int :: k < $i && activeCfg(s, k, "show_ticks"))
+//@   loop 1: invariant b1: forall k int :: k < $i && activeCfg(s, k, "show_io_pre") ==> sc.ShowIoPre
+//@   loop 1: invariant b0: sc.ShowIoPre ==> old(sc.ShowIoPre) || (exists k int :: k < $i && activeCfg(s, k, "show_io_pre"))
+//@   loop 1: invariant c1: forall k int :: k < $i && activeCfg(s, k, "show_io_post") ==> sc.ShowIoPost
+//@   loop 1: invariant c0: sc.ShowIoPost ==> old(sc.ShowIoPost) || (exists k int :: k < $i && activeCfg(s, k, "show_io_post"))
+//@   loop 1: invariant d1: forall k int :: k < $i && activeCfg(s, k, "get_ticks") ==> sc.GetTicks
+//@   loop 1: invariant d0: sc.GetTicks ==> old(sc.GetTicks) || (exists k int :: k < $i && activeCfg(s, k, "get_ticks"))
+//@   loop 1: invariant e1: forall k int :: k < $i && activeCfg(s, k, "get_all") ==> sc.GetAll
+//@   loop 1: invariant e0: sc.GetAll ==> old(sc.GetAll) || (exists k int :: k < $i && activeCfg(s, k, "get_all"))
+//@   loop 1: invariant f1: forall k int :: k < $i && activeCfg(s, k, "get_all_internal") ==> sc.GetAllInternal
+//@   loop 1: invariant f0: sc.GetAllInternal ==> old(sc.GetAllInternal) || (exists k int :: k < $i && activeCfg(s, k, "get_all_internal"))
